@@ -667,8 +667,8 @@ func c02Scenarios() []c02Scn {
 	for _, layout := range []string{"F", "Fw", "wF"} {
 		for _, prev := range []string{"absent", "intact", "flip"} {
 			for _, size := range []int{1, 40 * 1024} {
-				if size != 1 && !vrep.Thorough() && layout != "Fw" {
-					continue
+				if !vrep.Thorough() && (size != 1 || prev == "intact" || (prev == "flip" && layout != "Fw")) {
+					continue // quick tier: 1-byte block; absent copy on every full layout, corrupt copy on Fw
 				}
 				out = append(out, c02Scn{Size: size, Prev: prev, Layout: layout, Serialize: false})
 			}
